@@ -476,3 +476,60 @@ func VerifC18_DeepDotDot() {
 	t.vValidate()
 	vReach("c18.deep")
 }
+
+// A scripted family of deep histories: a chain of d nested directories is built
+// by creates through one fid F (which moves into each new directory), F is
+// cloned to G, then F and G each create m nested directories in turn.  From
+// both fids '..' must resolve to the directory created just before the last
+// one (or the clone point), and reference counts must balance after all fids
+// are clunked.
+func VerifC18_CloneDiverge() {
+	t := vNewTree()
+	s := t.sess
+	s.Attach(vBG, 1, p9p.NOFID, "u", "")
+	_, err := s.Walk(vBG, 1, 2)
+	vAssert(err == nil, "C18: clone of the root")
+	d := ndChoice("depth", 6)
+	m := 1 + ndChoice("rounds", 2)
+	var chain []p9p.Qid // qids of the directories F moved through
+	rootq, _ := s.Walk(vBG, 1, 9, "..")
+	_ = rootq
+	s.Clunk(vBG, 9)
+	mk := func(fid p9p.Fid, name string) p9p.Qid {
+		q, _, err := s.Create(vBG, fid, name, p9p.DMDIR|0755, p9p.OREAD)
+		vAssert(err == nil, "C18: mkdir "+name)
+		return q
+	}
+	for i := 0; i < d; i++ {
+		chain = append(chain, mk(2, string([]byte{byte('a' + i)})))
+	}
+	_, err = s.Walk(vBG, 2, 3) // G = clone of F
+	vAssert(err == nil, "C18: clone")
+	fchain := append([]p9p.Qid(nil), chain...)
+	gchain := append([]p9p.Qid(nil), chain...)
+	for r := 0; r < m; r++ {
+		fchain = append(fchain, mk(2, string([]byte{byte('p' + r)})))
+		gchain = append(gchain, mk(3, string([]byte{byte('u' + r)})))
+	}
+	parentOf := func(c []p9p.Qid) (uint64, bool) {
+		if len(c) >= 2 {
+			return c[len(c)-2].Path, true
+		}
+		return 0, false // parent is the root
+	}
+	qf, err := s.Walk(vBG, 2, 4, "..")
+	vAssert(err == nil && len(qf) == 1, "C18: .. from F")
+	qg, err2 := s.Walk(vBG, 3, 5, "..")
+	vAssert(err2 == nil && len(qg) == 1, "C18: .. from G")
+	if pf, ok := parentOf(fchain); ok && len(qf) == 1 {
+		vAssert(qf[0].Path == pf, "C18: walks (including '..') resolve as in the model tree (F)")
+	}
+	if pg, ok := parentOf(gchain); ok && len(qg) == 1 {
+		vAssert(qg[0].Path == pg, "C18: walks (including '..') resolve as in the model tree (G)")
+	}
+	for f := p9p.Fid(1); f <= 5; f++ {
+		s.Clunk(vBG, f)
+	}
+	t.vValidate()
+	vReach("c18.clonediverge")
+}
